@@ -47,6 +47,7 @@ type crashRes struct {
 	ImageKeys    []string            `json:"image_keys"`
 	Events       int                 `json:"events"`
 	Skipped      int64               `json:"skipped_images"`
+	Nested       int64               `json:"nested_images"`
 }
 
 func crashJob(raw json.RawMessage) (interface{}, error) {
@@ -211,6 +212,7 @@ func crashJob(raw json.RawMessage) (interface{}, error) {
 				// the recovered server keeps serving correctly: allocators, caches, a few more operations
 				w := &World{Disk: d2, Srv: srv, Vars: fsx.NewVars(), Model: models[k].Clone(), Unstable: true, Probe: probe}
 				vrt.Quiesce()
+				d2.Mark("post", 0, 0) // everything before this marker is recovery's own disk activity
 				fr2 := w.Fsck()
 				for _, e := range w.Audit(fr2) {
 					post = append(post, "audit|"+e)
@@ -270,6 +272,43 @@ func crashJob(raw json.RawMessage) (interface{}, error) {
 					kind = "acknowledged-operation-lost"
 				}
 				viol(a.Prop, "crash|"+kind+"|"+classes[hi], fmt.Sprintf("image %s (recovery schedule %d)\n%s", im.Desc, pol, why))
+			}
+			// nested crash: the recovery itself is cut (installer writes, Advance) and recovered again
+			if a.Nested && pol == 1 && len(K) > 0 && im.LogNonEmpty {
+				end := len(d2.Log)
+				for i, e := range d2.Log {
+					if e.Kind == vdisk.EvMark && e.Mark == "post" {
+						end = i
+						break
+					}
+				}
+				ncr := crash.Enumerate(im.Img, d2.Log[:end], 16)
+				for _, nim := range ncr.Images {
+					var ndump map[string]fsx.Node
+					var nerr error
+					nres := vrt.Run(vrt.Config{KeepClock: true}, func() {
+						srv := nfs.MakeNfs(vdisk.New(nim.Img))
+						ndump, nerr = fsx.Dump(srv, probe)
+					})
+					out.Recoveries++
+					out.Nested++
+					if v := VerdictViolation(&nres, a.Prop, "nested-recovery|"+cls); v != nil {
+						viol(a.Prop, v.Sig, fmt.Sprintf("image %s, then a second crash during recovery (%s)\n%s", im.Desc, nim.Desc, v.Detail))
+						continue
+					}
+					ok := nerr == nil
+					if ok {
+						ok = false
+						for _, k := range K {
+							if reffs.DiffDumps(ndump, mdumps[k], true) == "" {
+								ok = true
+							}
+						}
+					}
+					if !ok {
+						viol(a.Prop, "crash|nested|state-changed|"+cls, fmt.Sprintf("image %s recovers to prefix state(s) %v; after a second crash during that recovery (%s) the tree is different (dump error: %v)", im.Desc, K, nim.Desc, nerr))
+					}
+				}
 			}
 			for _, e := range post {
 				prop := a.Prop
@@ -370,6 +409,7 @@ func runCrashJobs(r *report.Report, jobs []crashArg, props map[string]bool) {
 		r.Add("crash_images", x.Images)
 		r.Add("crash_choice_vectors", x.Raw)
 		r.Add("recoveries", x.Recoveries)
+		r.Add("nested_crash_images", x.Nested)
 		r.Add("histories", 1)
 		r.Add("disk_events", int64(x.Events))
 		if x.CappedEpochs > 0 || x.Skipped > 0 {
